@@ -1805,4 +1805,33 @@ def gateScenario (op : Nat) (allow : Bool) (ans : Option Ans) (late : Bool) : Op
   (ret, (r.1.genomes[0]?.map fun g => (g.log.drop n0).map (·.approved)).getD [],
    (r.1.genomes[0]?.bind fun g => valueOf g 0).getD 0)
 
+/-- how the parent of the evaluated `replicate` table is built: one gene (value 1, default level HIGH); settings from
+    the constructor, or the opposite settings from the constructor and the wanted ones ASSIGNED afterwards; optionally
+    the gene silenced -/
+def replSetup (allow cb rate late silenced : Bool) : List (Op Nat) :=
+  let mk (a c r : Bool) : Op Nat := .new a (if c then some 0 else none) r [⟨0, 1, .structural, false, .high⟩]
+  (if late then
+    [mk (!allow) (!cb) (!rate), .assign 0 (.allow allow), .assign 0 (.cb (if cb then some 0 else none)),
+     .assign 0 (.rate rate)]
+   else [mk allow cb rate]) ++ (if silenced then [.setExpr 0 0 .silenced] else [])
+
+/-- the child `replicate()` returns in that scenario (callback refusing, random pass = identity mutation):
+    (allow, callback is the parent's, rate, level of the gene, generation, parent hash = parent's canonical list,
+    approved-flags of its log, parent untouched) -/
+def replScenario (allow cb rate inherit late silenced : Bool) : Option ChildView :=
+  let env : Env Nat := { gateEnv (some .refuse) with rnd := fun _ _ v => some v }
+  let st := run env Store.empty (replSetup allow cb rate late silenced)
+  let r := step env st (.replicate 0 [] inherit)
+  match st.genomes[0]?, r.1.genomes[1]? with
+  | some p, some c =>
+    some ⟨c.allow, c.cb == p.cb, c.rate, findLevel c.expr 0, c.generation, c.parentHash == some (canon p),
+          c.log.map (·.approved), r.1.genomes[0]? == some p⟩
+  | _, _ => none
+
+/-- `Genome(genes=[t=1 (LOW), u=3, t=2 (HIGH)], allow_mutations=allow)`: (value of t, level of t, number of genes, log) -/
+def constructScenario (allow : Bool) : Nat × Option Level × Nat × Nat :=
+  let g : Genome Nat := newGenome allow none false
+    [⟨0, 1, .structural, false, .low⟩, ⟨1, 3, .structural, false, .normal⟩, ⟨0, 2, .structural, false, .high⟩]
+  ((valueOf g 0).getD 0, findLevel g.expr 0, g.genes.length, g.log.length)
+
 end Operon.Genome
